@@ -15,7 +15,21 @@ import (
 	"verifharness/wire"
 )
 
-func init() { Registry["C19"] = C19 }
+func init() {
+	Registry["C19"] = C19
+	// sources whose VERDICT (not only their result) must not depend on what other goroutines compile at the time: a
+	// break / continue behind a finished loop is rejected; next to them a transform whose loop body has 6 000
+	// statements keeps other compilations inside a loop body for a long while
+	c19VictimIdx = len(c19Pool)
+	c19Pool = append(c19Pool,
+		"set f to transform set i to 0 loop set i to i + 1 if i > 2 then break end end break return i end\nreplace all 'a' with f",
+		"set f to transform set i to 0 loop set i to i + 1 if i > 2 then break end end if i > 1 then continue end return i end\nreplace all 'a' with f",
+		"set p to pattern 'a' begin loop break end break return true end\nfind all p")
+	c19BigLoopIdx = len(c19Pool)
+	c19Pool = append(c19Pool, "set f to transform set n to 0 loop set n to n + 1 if n > 3 then break end "+strings.Repeat("set m to n + 1 ", 6000)+"end return n end\nreplace all 'a' with f")
+}
+
+var c19VictimIdx, c19BigLoopIdx int
 
 var c19Pool = []string{
 	"find all @/((a)b)\\1\\2/",
@@ -155,7 +169,7 @@ func C19(r *drv.Run) {
 	if !quick(r) {
 		rounds = 3000
 	}
-	r.Rule = "rounds of 8..32 goroutines issuing Compile (sources with and without regex groups, with loops, with relocated global patterns, sources that fail in the lexer / parser / regex sub-parser / generator / type checker, sources of about a kilobyte), Compile+Run, Run on shared pre-compiled programs and Run followed by Json()/FormattedJson() of the result list, on short texts and on texts long enough for loops to pass 64, 128 and 256 iterations in one attempt, all released from one barrier, in a -race build of the worker; yield hooks (H2 every lexer read, H3 parser/generator sites, H1 every VM step) armed in half of the rounds. Plus compile storms: 16 goroutines each compiling a few tiny sources two hundred times over without yields (9 600 compilations per storm), every repetition compared. In every third round a third of the calls are RunFiles calls of two linear programs over ONE file of 13 KB (three reader windows) and one small file, so that several goroutines search the same file at the same time. Every thirtieth round adds four goroutines that run a linear replace command (three of them compiling it themselves) on two different texts of more than a mebibyte with thousands of matches. Every Run call files a label of its own under each match it got back (the exported variable map of a match belongs to the caller): afterwards its matches carry that label and no other, and no later call sees it. Every thirtieth round has sixteen goroutines rewriting their own files (mode NEW, six calls each) while eight others search file NAMES (RunFiles with its third argument set) 120 times each: every output file equals the one the call writes alone. Every thirtieth round is a crowd of 96 goroutines, each rewriting its own copy of a 13 KB file in replace mode NEW (reader and writer open at the same time): all of them return. One round in ten runs next to one more compilation that waits for its source on a named pipe; the source is delivered when every other call has returned - a call that alone returns at once must not wait for it (the writer gives up after 20 s, which is the violation). Oracle 1: the Go race detector (GORACE halt_on_error=0, log files parsed, reports de-duplicated by the pair of outermost repository frames): any report is a violation. Oracle 2: every concurrent call's result digest (canonical bytecode with loop ids normalised; all match fields; the rendered JSON texts) equals the digest of the same call executed alone in a fresh sequential worker. Oracle 3: canonical bytecode of the shared programs unchanged by the round. Non-trivial = a call whose [call,return] interval overlapped another call's on the shared monotonic clock; distinct by (round, call index)."
+	r.Rule = "rounds of 8..32 goroutines issuing Compile (sources with and without regex groups, with loops, with relocated global patterns, sources that fail in the lexer / parser / regex sub-parser / generator / type checker, sources of about a kilobyte), Compile+Run, Run on shared pre-compiled programs and Run followed by Json()/FormattedJson() of the result list, on short texts and on texts long enough for loops to pass 64, 128 and 256 iterations in one attempt, all released from one barrier, in a -race build of the worker; yield hooks (H2 every lexer read, H3 parser/generator sites, H1 every VM step) armed in half of the rounds. Plus compile storms: 16 goroutines each compiling a few tiny sources two hundred times over without yields (9 600 compilations per storm), every repetition compared. In every third round a third of the calls are RunFiles calls of two linear programs over ONE file of 13 KB (three reader windows) and one small file, so that several goroutines search the same file at the same time. Every thirtieth round adds four goroutines that run a linear replace command (three of them compiling it themselves) on two different texts of more than a mebibyte with thousands of matches. Every Run call files a label of its own under each match it got back (the exported variable map of a match belongs to the caller): afterwards its matches carry that label and no other, and no later call sees it. Every thirtieth round has six goroutines compiling a transform whose loop body holds 6 000 statements while eighteen others compile, twenty times each, three sources that must be rejected (break or continue behind a finished loop): the verdict of a compilation is its own. Every thirtieth round has sixteen goroutines rewriting their own files (mode NEW, six calls each) while eight others search file NAMES (RunFiles with its third argument set) 120 times each: every output file equals the one the call writes alone. Every thirtieth round is a crowd of 96 goroutines, each rewriting its own copy of a 13 KB file in replace mode NEW (reader and writer open at the same time): all of them return. One round in ten runs next to one more compilation that waits for its source on a named pipe; the source is delivered when every other call has returned - a call that alone returns at once must not wait for it (the writer gives up after 20 s, which is the violation). Oracle 1: the Go race detector (GORACE halt_on_error=0, log files parsed, reports de-duplicated by the pair of outermost repository frames): any report is a violation. Oracle 2: every concurrent call's result digest (canonical bytecode with loop ids normalised; all match fields; the rendered JSON texts) equals the digest of the same call executed alone in a fresh sequential worker. Oracle 3: canonical bytecode of the shared programs unchanged by the round. Non-trivial = a call whose [call,return] interval overlapped another call's on the shared monotonic clock; distinct by (round, call index)."
 	r.Assumptions = []string{
 		"the race detector only sees races on schedules that occur; yields and repetition raise the odds, not to certainty",
 		"the harness's own monitor state is atomic in concurrent mode; the step and lexer counters are switched off there",
@@ -189,7 +203,7 @@ func C19(r *drv.Run) {
 	for p := range c19Pool {
 		keys = append(keys, key{"compile", p, 0})
 		for t := range texts {
-			if t >= longIdx {
+			if t >= longIdx || p >= c19VictimIdx {
 				continue
 			}
 			keys = append(keys, key{"compile+run", p, t}, key{"run", p, t}, key{"run+json", p, t})
@@ -223,12 +237,12 @@ func C19(r *drv.Run) {
 		ncalls := g * (2 + rng.Intn(3))
 		calls := make([]wire.Call, ncalls)
 		// few shared programs per round
-		shared := []int{rng.Intn(len(c19Pool)), rng.Intn(len(c19Pool)), rng.Intn(len(c19Pool))}
+		shared := []int{rng.Intn(c19VictimIdx), rng.Intn(c19VictimIdx), rng.Intn(c19VictimIdx)} // (the sources behind c19VictimIdx have rounds of their own)
 		for j := range calls {
 			kinds := []string{"compile", "compile", "compile+run", "run", "run", "run+json"}
 			p := shared[rng.Intn(3)]
 			if rng.Chance(1, 4) {
-				p = rng.Intn(len(c19Pool))
+				p = rng.Intn(c19VictimIdx)
 			}
 			calls[j] = wire.Call{Kind: kinds[rng.Intn(len(kinds))], Prog: p, Text: rng.Intn(longIdx), G: j % g}
 			if calls[j].Kind == "compile" {
@@ -265,6 +279,23 @@ func C19(r *drv.Run) {
 				}
 			}
 			r.Count("rounds_of_file_rewriting_next_to_file_name_searching", 1)
+		}
+		if i%30 == 14 {
+			// six goroutines compile a transform whose loop body has 6 000 statements while eighteen others compile,
+			// twenty times each, sources that must be REJECTED (break / continue behind a finished loop)
+			g = 24
+			calls = nil
+			for q := 0; q < 6; q++ {
+				for k := 0; k < 3; k++ {
+					calls = append(calls, wire.Call{Kind: "compile", Prog: c19BigLoopIdx, G: q})
+				}
+			}
+			for q := 6; q < 24; q++ {
+				for k := 0; k < 20; k++ {
+					calls = append(calls, wire.Call{Kind: "compile", Prog: c19VictimIdx + (q+k)%3, G: q})
+				}
+			}
+			r.Count("rounds_of_rejected_sources_compiled_next_to_a_long_loop_body", 1)
 		}
 		if i%30 == 4 {
 			// four goroutines run a linear replace command (three of them compile it themselves) on the two mebibyte texts at the same time
